@@ -3,8 +3,8 @@
    Print Assumptions follows every theorem.  abs_of_batch is a function of the batch and the norm function only: the model has no pool and no map; what remains to show is that the places where Go's map iteration order enters cannot matter. *)
 
 From Coq Require Import List NArith Bool Sorting Permutation.
-From Ice Require Import Base Spec.
-From IceProofs Require Immut_Proofs Build_Proofs.
+From Ice Require Import Base Spec Postings Builder.
+From IceProofs Require Immut_Proofs Build_Proofs Builder_Proofs.
 Import ListNotations.
 Open Scope N_scope.
 
@@ -48,3 +48,31 @@ Theorem build_is_function_of_batch :
     end) (number_from 0 b).
 Proof. exact @Build_Proofs.build_postings. Qed.
 Print Assumptions build_is_function_of_batch.
+
+(* the builder model's result does not depend on the order in which Go's map ranges visit the terms of a document (any order, possibly different on every iteration) *)
+Theorem build_perm_independent :
+    forall (norm : bytes -> N -> N)
+    (perm1 perm2 : N -> nat -> list (bytes * TokFreq) -> list (bytes * TokFreq)) 
+    (b : Batch),
+    (forall (n : N) (q : nat) (l : list (bytes * TokFreq)), Permutation (perm1 n q l) l) ->
+    (forall (n : N) (q : nat) (l : list (bytes * TokFreq)), Permutation (perm2 n q l) l) ->
+    valid_batch b = true -> build_postings_model norm perm1 b = build_postings_model norm perm2 b.
+Proof. exact @Builder_Proofs.build_perm_independent. Qed.
+Print Assumptions build_perm_independent.
+
+(* ... because it equals the specification, which has no map *)
+Theorem builder_model_equals_spec :
+    forall (norm : bytes -> N -> N) (perm : N -> nat -> list (bytes * TokFreq) -> list (bytes * TokFreq)),
+    (forall (n : N) (q : nat) (l : list (bytes * TokFreq)), Permutation (perm n q l) l) ->
+    forall b : Batch,
+    valid_batch b = true ->
+    build_postings_model norm perm b =
+    map
+    (fun f : bytes =>
+    (f,
+    map
+    (fun t : bytes =>
+    (t, map (to_eposting (define_fields b)) (o_postings (abs_of_batch norm b) f t)))
+    (o_terms (abs_of_batch norm b) f))) (define_fields b).
+Proof. exact @Builder_Proofs.R_build_postings. Qed.
+Print Assumptions builder_model_equals_spec.
